@@ -122,6 +122,7 @@ class C07(Prop):
             d = c.copy()
             d.meta = {"kind": "coop-mover"}
             out.append(d)
+        out += cg.mover_pair_cases(tier)
         return out
 
     def starved_oracle(self, case, lines):
